@@ -25,7 +25,14 @@ import (
 	"time"
 )
 
-const verifDir = "/verif"
+var verifDir = func() string {
+	if d, err := os.Getwd(); err == nil {
+		if _, err := os.Stat(filepath.Join(d, "harness")); err == nil {
+			return d
+		}
+	}
+	return "/verif"
+}()
 const repoDir = "/repo"
 
 type Violation struct {
